@@ -61,7 +61,11 @@ def targets(rng, n):
         # special: identity, straight ahead, behind, coinciding circles (pure rotation about a circle centre), near targets (CCC), axes
         for (x, y, th) in [(0, 0, 0), (3, 0, 0), (-3, 0, 0), (0, 2 * R, math.pi), (0, -2 * R, math.pi), (0.5 * R, 0.2 * R, 0.3), (0.1 * R, -0.3 * R, 2.5),
                            (0, 5, math.pi / 2), (0, -5, -math.pi / 2), (4 * R, 0, math.pi), (R, R, math.pi / 2), (R, -R, -math.pi / 2), (2 * R, 2 * R, math.pi),
-                           (0.0, 0.0, 1.0), (0.0, 0.0, -2.0), (1e-3, 1e-3, 3.0)]:
+                           (0.0, 0.0, 1.0), (0.0, 0.0, -2.0), (1e-3, 1e-3, 3.0),
+                           # words with an exactly vanishing segment: arc + straight, straight + arc, single arcs
+                           (R, 2 * R, math.pi / 2), (R, -2 * R, -math.pi / 2), (3 * R, R, math.pi / 2), (2 * R, -R, -math.pi / 2),
+                           (R, R, math.pi / 2), (R, -R, -math.pi / 2), (-R, R, -math.pi / 2 + 2 * math.pi), (5.0, 0.0, 0.0),
+                           (R * math.sin(1.0), R * (1 - math.cos(1.0)), 1.0), (R * math.sin(2.5), -R * (1 - math.cos(2.5)), -2.5)]:
             out.append((x, y, th, R))
     for _ in range(n):
         R = rng.choice([0.5, 1.0, 2.0])
